@@ -1,9 +1,381 @@
 package draw
 
 import (
+	"fmt"
+	"strings"
+	"testing"
+	"unicode/utf8"
+
+	"github.com/gdamore/tcell/v2"
+	"golang.org/x/text/encoding"
+	"pgregory.net/rapid"
+	"verif.local/hx"
 	"verif.local/lm"
+	"verif.local/simrt"
 	"verif.local/vt"
 )
 
-// legacyGlyphOK is the C17 per-cell oracle (legacy character sets).
-func legacyGlyphOK(w *dw, c *vt.Cell, g lm.Glyph) bool { return false }
+// C17: in a legacy character set each cell is written as the charset's
+// encoding of its rune if representable, else as the terminal's alternate
+// character set glyph, else the registered fallback, else '?'.
+
+// acsNames is terminfo(5)'s table of VT100 alternate-character-set names,
+// keyed by the rune tcell's public Rune* constants give each glyph.
+var acsNames = map[rune]byte{
+	tcell.RuneRArrow: '+', tcell.RuneLArrow: ',', tcell.RuneUArrow: '-', tcell.RuneDArrow: '.', tcell.RuneBlock: '0',
+	tcell.RuneDiamond: '`', tcell.RuneCkBoard: 'a', tcell.RuneDegree: 'f', tcell.RunePlMinus: 'g', tcell.RuneBoard: 'h',
+	tcell.RuneLantern: 'i', tcell.RuneLRCorner: 'j', tcell.RuneURCorner: 'k', tcell.RuneULCorner: 'l', tcell.RuneLLCorner: 'm',
+	tcell.RunePlus: 'n', tcell.RuneS1: 'o', tcell.RuneS3: 'p', tcell.RuneHLine: 'q', tcell.RuneS7: 'r', tcell.RuneS9: 's',
+	tcell.RuneLTee: 't', tcell.RuneRTee: 'u', tcell.RuneBTee: 'v', tcell.RuneTTee: 'w', tcell.RuneVLine: 'x',
+	tcell.RuneLEqual: 'y', tcell.RuneGEqual: 'z', tcell.RunePi: '{', tcell.RuneNEqual: '|', tcell.RuneSterling: '}', tcell.RuneBullet: '~',
+}
+
+// acsByte returns the byte the description's acsc maps the rune's VT100
+// name to (ok=false if the description has no glyph for it).
+func acsByte(acsc string, enterAcs string, r rune) (byte, bool) {
+	name, ok := acsNames[r]
+	if !ok || enterAcs == "" {
+		return 0, false
+	}
+	for i := 0; i+1 < len(acsc); i += 2 {
+		if acsc[i] == name {
+			return acsc[i+1], true
+		}
+	}
+	return 0, false
+}
+
+// encodable says whether the charset can carry the rune (x/text coder,
+// trusted base; the encoder's substitution byte counts as "cannot").
+func encodable(cs encoding.Encoding, r rune) bool {
+	if r < 0 || r > 0x10ffff || (r >= 0xd800 && r < 0xe000) {
+		return false
+	}
+	if cs == nil {
+		return true
+	}
+	e := cs.NewEncoder()
+	b, err := e.Bytes([]byte(string(r)))
+	if err != nil || len(b) == 0 || (len(b) == 1 && b[0] == 0x1a && r != 0x1a) {
+		return false
+	}
+	back, err := cs.NewDecoder().Bytes(b)
+	return err == nil && string(back) == string(r)
+}
+
+// legacyGlyphOK is the C17 per-cell oracle, called when the base rune the
+// terminal shows differs from the rune stored in the cell.
+func legacyGlyphOK(w *dw, c *vt.Cell, g lm.Glyph) bool {
+	r := g.R
+	if encodable(w.charset, r) {
+		return false // must be shown as itself
+	}
+	if b, ok := acsByte(w.Ti.AltChars, w.Ti.EnterAcs, r); ok {
+		return c.Alt && c.AltB == b && c.Width == 1
+	}
+	if c.Alt {
+		return false
+	}
+	if fb, ok := w.fallbacks[r]; ok {
+		fr, n := utf8.DecodeRuneInString(fb)
+		return n == len(fb) && c.R == fr
+	}
+	return c.R == '?'
+}
+
+// canDisplay is the statement's definition of CanDisplay.
+func (w *dw) canDisplay(r rune, withFallbacks bool) bool {
+	if encodable(w.charset, r) {
+		return true
+	}
+	if _, ok := acsByte(w.Ti.AltChars, w.Ti.EnterAcs, r); ok {
+		return true
+	}
+	if withFallbacks {
+		_, ok := w.fallbacks[r]
+		return ok
+	}
+	return false
+}
+
+var c17Locales []string
+
+func legacyLocales() []string {
+	if c17Locales != nil {
+		return c17Locales
+	}
+	seen := map[string]bool{}
+	for _, name := range tcell.VerifEncodings() {
+		n := strings.ToLower(name)
+		if strings.Contains(n, "2022") || n == "gb2312" || strings.HasPrefix(n, "hz") || strings.HasPrefix(n, "utf") {
+			continue
+		}
+		enc := tcell.GetEncoding(name)
+		id := fmt.Sprintf("%T/%v", enc, enc)
+		if seen[id] {
+			continue
+		}
+		seen[id] = true
+		c17Locales = append(c17Locales, "en_US."+name)
+	}
+	c17Locales = append(c17Locales, "C", "en_US.UTF-8")
+	return c17Locales
+}
+
+func charsetOfLocale(locale string) encoding.Encoding {
+	if locale == "C" || locale == "POSIX" {
+		return tcell.GetEncoding("US-ASCII")
+	}
+	return charsetOf(locale)
+}
+
+// runes worth drawing in a legacy locale: representable ones, ACS glyphs,
+// fallback candidates, unrepresentable ones.
+func drawLegacyRune(t *rapid.T, members []rune) rune {
+	switch rapid.IntRange(0, 9).Draw(t, "lrclass") {
+	case 0, 1, 2:
+		return members[rapid.IntRange(0, len(members)-1).Draw(t, "member")]
+	case 3, 4:
+		keys := []rune{tcell.RuneULCorner, tcell.RuneHLine, tcell.RuneVLine, tcell.RuneBullet, tcell.RuneSterling, tcell.RuneDegree,
+			tcell.RuneRArrow, tcell.RuneBlock, tcell.RuneDiamond, tcell.RunePi, tcell.RuneNEqual, tcell.RuneBoard, tcell.RuneLantern, tcell.RuneS1}
+		return rapid.SampledFrom(keys).Draw(t, "acsrune")
+	case 5:
+		return rune(rapid.IntRange(0x20, 0x7e).Draw(t, "ascii"))
+	case 6:
+		return rapid.SampledFrom([]rune{0x4e00, 0x4e8c, 0xac00, 0x3042, 0x1f600}).Draw(t, "wide")
+	case 7:
+		return rapid.SampledFrom([]rune{0x2603, 0x20ac, 0x0416, 0xe9, 0x3b1, 0x5d0}).Draw(t, "misc")
+	default:
+		return rune(rapid.IntRange(0xa0, 0x2fff).Draw(t, "bmp"))
+	}
+}
+
+var memberCache = map[string][]rune{}
+
+func membersOf(locale string) []rune {
+	if m, ok := memberCache[locale]; ok {
+		return m
+	}
+	cs := charsetOfLocale(locale)
+	var out []rune
+	for r := rune(0x20); r < 0x10000; r++ {
+		if r >= 0x7f && r < 0xa0 || (r >= 0xd800 && r < 0xe000) || r == 0xfffd {
+			continue
+		}
+		if encodable(cs, r) && lm.Width(r) >= 1 {
+			out = append(out, r)
+			if cs == nil && len(out) > 3000 {
+				break
+			}
+		}
+	}
+	memberCache[locale] = out
+	return out
+}
+
+func runC17(t *rapid.T) {
+	if hx.PastDeadline() {
+		return
+	}
+	fam := ecmaFamily()
+	cfg := hx.DrawConfig(t, fam, 10, 4)
+	cfg.Locale = rapid.SampledFrom(legacyLocales()).Draw(t, "locale")
+	members := membersOf(cfg.Locale)
+	ch := hx.DrawChooser(t, 40)
+	hx.Arm("C17")
+	defer hx.Disarm()
+	w, err := newDW(cfg, ch, "C17")
+	if err != nil {
+		t.Fatalf("HARNESS: %v", err)
+	}
+	w.charset = charsetOfLocale(cfg.Locale)
+	w.T.Dec = w.charset
+	if w.charset != nil {
+		w.T = vtFor(w)
+	}
+	for k, v := range tcell.RuneFallbacks {
+		w.fallbacks[k] = v
+	}
+	type lop struct {
+		Kind string
+		X, Y int
+		R    rune
+		Comb []rune
+		FB   string
+		With bool
+	}
+	n := rapid.IntRange(1, 30).Draw(t, "nops")
+	var ops []lop
+	for i := 0; i < n; i++ {
+		switch rapid.IntRange(0, 9).Draw(t, "lop") {
+		case 0, 1, 2, 3, 4:
+			o := lop{Kind: "set", X: rapid.IntRange(0, cfg.W-1).Draw(t, "x"), Y: rapid.IntRange(0, cfg.H-1).Draw(t, "y"), R: drawLegacyRune(t, members)}
+			if rapid.IntRange(0, 6).Draw(t, "comb") == 0 {
+				o.Comb = []rune{rapid.SampledFrom(combMarks).Draw(t, "mark")}
+			}
+			ops = append(ops, o)
+		case 5, 6:
+			ops = append(ops, lop{Kind: "show"})
+		case 7:
+			o := lop{Kind: "register", R: drawLegacyRune(t, members), FB: rapid.SampledFrom([]string{"x", "#", "=", "%"}).Draw(t, "fb")}
+			if lm.Width(o.R) == 2 {
+				o.FB += "~" // "the display string should be the same width as the original rune"
+			}
+			ops = append(ops, o)
+		case 8:
+			ops = append(ops, lop{Kind: "unregister", R: drawLegacyRune(t, members)})
+		default:
+			ops = append(ops, lop{Kind: "candisplay", R: drawLegacyRune(t, members), With: rapid.Bool().Draw(t, "withfb")})
+		}
+	}
+	ops = append(ops, lop{Kind: "show"})
+	s := w.S
+	s.Spawn("app", func() {
+		if err := w.Scr.Init(); err != nil {
+			w.initErr = err
+			return
+		}
+		if got := w.Scr.CharacterSet(); w.charset != nil && charsetOfLocale("x."+got) == nil && tcell.GetEncoding(got) == nil {
+			w.fail("C17/glyph", "screen reports unknown character set %q for locale %q", got, cfg.Locale)
+		}
+		for _, o := range ops {
+			if w.Fail != nil {
+				return
+			}
+			switch o.Kind {
+			case "set":
+				w.Scr.SetContent(o.X, o.Y, o.R, o.Comb, tcell.StyleDefault)
+				w.M.SetContent(o.X, o.Y, o.R, o.Comb, lm.Style{})
+			case "register":
+				w.Scr.RegisterRuneFallback(o.R, o.FB)
+				w.fallbacks[o.R] = o.FB
+				// takes effect at the next draw: force the affected cells to be redrawn
+				for i := range w.M.Cells {
+					if w.M.Cells[i].R == o.R {
+						x, y := i%w.M.W, i/w.M.W
+						w.Scr.SetContent(x, y, ' ', nil, tcell.StyleDefault)
+						w.Scr.SetContent(x, y, o.R, w.M.Cells[i].Comb, tcell.StyleDefault)
+					}
+				}
+			case "unregister":
+				w.Scr.UnregisterRuneFallback(o.R)
+				delete(w.fallbacks, o.R)
+				for i := range w.M.Cells {
+					if w.M.Cells[i].R == o.R {
+						x, y := i%w.M.W, i/w.M.W
+						w.Scr.SetContent(x, y, ' ', nil, tcell.StyleDefault)
+						w.Scr.SetContent(x, y, o.R, w.M.Cells[i].Comb, tcell.StyleDefault)
+					}
+				}
+			case "candisplay":
+				got, want := w.Scr.CanDisplay(o.R, o.With), w.canDisplay(o.R, o.With)
+				if got != want {
+					w.fail("C17/candisplay", "CanDisplay(%q U+%04X, %v) = %v in %s on %s; the rune %s", o.R, o.R, o.With, got, cfg.Locale, cfg.Term, w.why(o.R))
+				}
+			case "show":
+				w.block++
+				w.Scr.Show()
+				w.afterShowLegacy()
+			}
+		}
+	})
+	s.Spawn("poller", func() {
+		for w.initErr == nil && w.Scr.PollEvent() != nil {
+		}
+	})
+	st := s.Run()
+	if w.initErr != nil {
+		t.Fatalf("HARNESS: Init: %v", w.initErr)
+	}
+	if app := s.Find("app"); st != simrt.Budget && !app.Done() && app.Panic == nil {
+		w.fail("C17/stall", "stuck: %v", s.Blocked())
+	}
+	for _, pn := range w.Panics() {
+		w.fail("C17/panic", "panic: %s", pn)
+	}
+	hx.St.Record(s, map[string]int{"fallback_change": 1}, func() interface{} {
+		return map[string]interface{}{"config": cfg.String(), "ops": len(ops), "bytes_written": w.Tty.WriteOut}
+	})
+	fail := w.Fail
+	sig := s.Hash()
+	tr := s.Trace
+	if err := w.Close(); err != nil {
+		t.Fatalf("HARNESS: %v", err)
+	}
+	if fail != nil && (strings.HasPrefix(fail.Tag, "C17/") || strings.HasPrefix(fail.Tag, "C09/")) {
+		tag := fail.Tag
+		if strings.HasPrefix(tag, "C09/") {
+			tag = "C17/raw-utf8"
+		}
+		fail.Tag = tag
+		var os []string
+		for _, o := range ops {
+			os = append(os, fmt.Sprintf("%+v", o))
+		}
+		hx.WriteTrace("C17", fail, map[string]interface{}{"config": cfg.String(), "ops": os}, tr, nil, sig)
+		t.Fatalf("VIOLATION %s: [%s %s] %s", tag, cfg.Term, cfg.Locale, fail.Msg)
+	}
+}
+
+func (w *dw) why(r rune) string {
+	b, acs := acsByte(w.Ti.AltChars, w.Ti.EnterAcs, r)
+	_, fb := w.fallbacks[r]
+	return fmt.Sprintf("encodable=%v acs=%v(%q) fallback=%v", encodable(w.charset, r), acs, b, fb)
+}
+
+// afterShowLegacy compares the display in a legacy locale.
+func (w *dw) afterShowLegacy() {
+	if len(w.T.Errors) > 0 {
+		w.fail("C17/raw-utf8", "the terminal (decoding %s) rejected the output: %s", w.Cfg.Locale, strings.Join(w.T.Errors, "; "))
+		return
+	}
+	m := w.M
+	for y := 0; y < m.H; y++ {
+		row := m.Row(y)
+		for x := 0; x < m.W; x++ {
+			g := row[x]
+			c := w.T.At(x, y)
+			if g.Hidden {
+				// second column of a wide rune: a continuation, or the blank of "? "
+				continue
+			}
+			if g.Width == 2 && !encodable(w.charset, g.R) {
+				// an unrepresentable wide rune: substitute plus a blank, two columns
+				second := ' '
+				ok := false
+				if fb, has := w.fallbacks[g.R]; has && len(fb) == 2 {
+					second = rune(fb[1])
+					ok = c.R == rune(fb[0]) && !c.Alt
+				} else {
+					ok = legacyGlyphOK(w, c, g)
+				}
+				ok = ok && c.Width == 1 && x+1 < m.W && w.T.At(x+1, y).R == second && w.T.At(x+1, y).Width == 1
+				if !ok {
+					w.fail("C17/width", "cell (%d,%d) holds wide %q (U+%04X: %s): terminal shows %q then %q", x, y, g.R, g.R, w.why(g.R), c.Text(), w.T.At(x+1, y).Text())
+					return
+				}
+				continue
+			}
+			if c.Width != g.Width {
+				w.fail("C17/width", "cell (%d,%d) holds %q (U+%04X): terminal glyph %q occupies %d columns, expected %d", x, y, g.R, g.R, c.Text(), c.Width, g.Width)
+				return
+			}
+			if c.R != g.R || c.Alt {
+				if !legacyGlyphOK(w, c, g) {
+					w.fail("C17/glyph", "cell (%d,%d) holds %q (U+%04X: %s): terminal shows %q (alt=%v byte %q)", x, y, g.R, g.R, w.why(g.R), c.Text(), c.Alt, c.AltB)
+					return
+				}
+			}
+		}
+	}
+}
+
+func TestC17(t *testing.T) { rapid.Check(t, runC17) }
+
+// vtFor makes the reference terminal for a world whose locale was set
+// after newDW (legacy character set).
+func vtFor(w *dw) *vt.Term {
+	t := vt.New(w.Cfg.W, w.Cfg.H, w.charset)
+	t.PCAlt = strings.Contains(w.Ti.EnterAcs, "\x1b[11m") || strings.Contains(w.Ti.EnterAcs, "\x1b[12m")
+	return t
+}
